@@ -84,6 +84,10 @@ class SpyClock(Clock):
             name = "mrtb:%d" % self.sim.last_mk
         elif "timeItOut" in qn:
             name = "boot:%d" % self.sim.last_boot_write
+        elif find_frame("_load_topic_partitions") is not None:
+            fr = find_frame("_load_topic_partitions")
+            name = "retry:%d" % self.sim.ltp_frames.get(id(fr), -1)
+            del fr
         if name is not None:
             dc._verif_name = name
             self.sim.timer_names[id(dc)] = (dc, name)
@@ -112,6 +116,7 @@ class SpyNet(Net):
             if p is not None:
                 p.boot = j
             self.sim.obs("bootConnect %d %s %d" % (j, host, port))
+            self.sim.note_ltp_frame()
             fr = find_frame("_bootstrap_request")
             if fr is not None and isinstance(fr.f_locals.get("request"), bytes):
                 self.sim.obs("t-battr %d %d" % (j, self.sim.unaware_id(int.from_bytes(fr.f_locals["request"][4:8], "big", signed=True))))
@@ -169,6 +174,7 @@ def make_spy(sim):
             sim.reqs[k] = {"k": k, "b": self.b, "corr": correlationId, "rq": rq, "expect": expectResponse, "fired": False}
             self.k_by_corr[correlationId] = k
             sim.obs("mk %d %d %d %s" % (k, self.b, 1 if expectResponse else 0, sim.what_of(rq)))
+            sim.note_ltp_frame()
             fr = find_frame("_send_broker_aware_request") if rq["name"] in ("produce", "fetch", "offset", "commit", "ofetch") else None
             if fr is not None and isinstance(fr.f_locals.get("payloads"), list):
                 hits = [sim.payload_ids.get(id(p)) for p in fr.f_locals["payloads"]]
@@ -317,6 +323,7 @@ class Sim(object):
         self.boot_conns = {}  # j -> Conn
         self.stray = []  # observations outside any step (must stay empty)
         self.pending_annot = []
+        self.ltp_frames, self.ltp_keep, self.cur_ltp, self.nltp = {}, [], None, 0
         self.payload_ids = {}  # id(payload object) -> (op, index); the objects are kept alive in self.ops
         self.unaware_ids = {}
         self.close_log_idx = None
@@ -324,6 +331,7 @@ class Sim(object):
         self.hold_closes = hold_closes  # connection-closed notifications are delivered only by `notify`
         self.cancel_style = cancel_style
         self.released = set()  # cids whose close notification may be delivered
+        self.boot_gone = set()
         self._install_conn_hook()
         self.shuffle_rng = _random.Random(shuffle_seed)
         self._orig_bc = C._KafkaBrokerClient
@@ -342,7 +350,7 @@ class Sim(object):
         C.random = RecRandom()
         self.timeout = Fraction(timeout_ms, 1000)
         self.hosts = sorted(set(hosts))
-        self.cfg_line = "cfg %s %d %s" % (rat(self.timeout), 1 if disconnect_on_timeout else 0, CC.lst("%s:%d" % hp for hp in self.hosts))
+        self.cfg_line = "cfg %s %d %s 1/2" % (rat(self.timeout), 1 if disconnect_on_timeout else 0, CC.lst("%s:%d" % hp for hp in self.hosts))
         self.client = KafkaClient(
             ",".join("%s:%d" % hp for hp in hosts), timeout=timeout_ms, disconnect_on_timeout=disconnect_on_timeout,
             reactor=self.clock, endpoint_factory=self.net, enable_protocol_version_discovery=False, retry_policy=lambda n: 0.5,
@@ -369,6 +377,15 @@ class Sim(object):
 
     def step(self, line):
         return _Step(self, line)
+
+    def note_ltp_frame(self):
+        """during api_ltp: remember which coroutine frame is which _load_topic_partitions call"""
+        if self.cur_ltp is not None:
+            fr = find_frame("_load_topic_partitions")
+            if fr is not None:
+                self.ltp_frames.setdefault(id(fr), self.cur_ltp)
+                self.ltp_keep.append(fr)  # keep the frame alive so that its id is not reused
+            del fr
 
     def unaware_id(self, request_id):
         return self.unaware_ids.setdefault(request_id, len(self.unaware_ids))
@@ -427,7 +444,7 @@ class Sim(object):
                     fl.append("%d:%s" % (i, kind_of(f)))
                 return "failedPayloads %s %s" % (CC.ints(tags), CC.lst(fl))
             return "fail " + kind_of(r)
-        if r is True:
+        if r is True or isinstance(r, dict):
             return "ok True"
         if r is None:
             return "ok None"
@@ -521,6 +538,19 @@ class Sim(object):
         self.settle()
         return o
 
+    def api_ltp(self, topics):
+        o = self.new_op()
+        self.cur_ltp = self.nltp
+        self.nltp += 1
+        try:
+            with self.step("ltp %d %s" % (o, CC.lst(topics))):
+                d = self.client._load_topic_partitions(*topics)
+                self._watch(o, d)
+        finally:
+            self.cur_ltp = None
+        self.settle()
+        return o
+
     def api_cancel(self, o):
         with self.step("cancel %d" % o):
             self.ops[o]["d"].cancel()
@@ -559,6 +589,10 @@ class Sim(object):
                     continue
                 if c.pump.flush():
                     moved = True
+        for j, c in self.boot_conns.items():
+            if j not in self.boot_gone and (c.closed or c.ct.disconnected):
+                self.boot_gone.add(j)
+                self.annot("t-bootgone %d" % j)
 
     def held(self):
         return [c for c in self.net.conns if (c.ct.disconnecting or c.st.disconnecting) and not c.ct.disconnected and c.cid not in self.released]
